@@ -16,6 +16,22 @@ module.exports = mk({
     const leaves = []
     const stats = { states: 0, transitions: 0 }
     for (const cfg of ['FULL', 'COMMENTS', 'RENAMED']) SEEDS.forEach((s, i) => { stats.states++; stats.transitions++; leaves.push({ fam: 'seed', key: 'seed¦' + i + '¦' + cfg, code: s, config: cfg, desc: 'seed' + i }) })
+    // untouched syntax that is re-printed wholesale by the code generator (one instrumented statement
+    // forces the file to be printed)
+    const EXOTIC = [
+      'let [p, q, ,] = g();', 'let [, , r1] = g();', 'x = [, ,];', 'x = [a, , b, ,];', '[, x] = g();', 'x = [...a, , ...b];',
+      'x = /[/]\\//g.test(a) / 2;', 'x = a / b / c;', 'x = a++ + ++b;', 'x = a-- - --b;', 'x = - -a; y = + +a; y = -(-a); y = !(!a);', 'x = a - (b - c); y = a / (b / c); y = a ** b ** c; y = (a ** b) ** c;',
+      'x = (a, b); y = (a = b, c);', 'x = a ? b : c ? d : e; y = (a ? b : c) ? d : e;', 'x = a ?? (b || c); y = (a ?? b) || c; y = a && (b || c);', 'x = 1_000_000n + 0x1Fn; y = 0b101 + 0o17 + .5e-3 + 5..toString();',
+      'x = "\\u{1F600}\\n\\"\\\'"; y = \'\\x41\\0\';', 'x = `a\\`b${c}\\${d}\\n`; y = String.raw`\\n${a}`;', 'x = { "a-b": 1, 2: 3, [c]: 4, __proto__: null, d, ...e, get f() { return 1 }, set f(v) {}, async *g() {}, async h() {}, *i() {} };',
+      'class K2 extends (a, b) { static #p = 1; #q; static { x = 1 } get #r() { return this.#q } static async *[c]() {} constructor() { super(); new.target } accessor z = 1 }',
+      'l1: for (;;) { l2: while (1) { if (a) continue l1; else break l2 } break }', 'for (var i2 = 0, j2 = (1, 2); i2 < j2; i2++, j2--);', 'for (const [k2, v2] of Object.entries(o)) ; for (var k3 in o) ;',
+      'if (a) ; else if (b) ; else ;', 'do ; while (a)', 'switch (a) { case 1: case 2: { break } default: }', 'try { } catch { } finally { }', 'try { } catch ({ message }) { }',
+      'var { a: { b: [c2 = 1, ...d2] = [] } = {}, ...e2 } = o;', 'function g3(a3, { b3 = 1, c3: [d3] } = {}, ...r3) { "use strict"; return arguments.length }', 'x = async function* () { for await (const q of a) yield* q };',
+      'x = (a3) => (b3) => ({}); y = async () => ({}).z; y = () => { };', 'x = a?.b?.[c]?.(d)?.e; y = (a?.b).c; y = a?.[b].c(d);', 'x = new a.b.c; y = new (a.b()).c; y = new (a())(); y = new a()();',
+      'x = void 0, y = typeof a === "undefined", delete o.p;', 'x = a in o; y = a instanceof X; y = !(a in o); y = !(a instanceof X);', 'if (a) function decl() {}', 'x = a\n++b', 'var let_ = 1; var async = 2; var of = 3; var get = 4; var yield_ = 5;',
+      'x = a <!-- b', 'x = function () { return\na }', 'debugger;', 'x = import("m"); y = import.meta;'.replace('; y = import.meta;', ';'), "x = a.if.class.new.delete; y = { if: 1, class: 2 };", 'x = a\n/re/g.test(b)', 'x = (function () {}).call(this); y = (() => {})(); y = (class {}).name;', 'x = ((a)); y = ((a, b)); y = ([a] = b); y = ({ a } = b);'
+    ]
+    for (const cfg of ['FULL', 'COMMENTS']) EXOTIC.forEach((st, i) => { stats.states++; stats.transitions++; leaves.push({ fam: 'exotic', key: 'exotic¦' + i + '¦' + cfg, code: `function f(a, b, c, d, e, o, g, X, x, y) { x = a + b; ${st}\n}`, config: cfg, desc: 'exotic' + i }) })
     return { leaves, stats }
   },
   oracle ({ a, v, res }) {
